@@ -413,11 +413,21 @@ def constraint_definitions(model, rep, rule, only=None):
         fi = method('_legLengthConstraint')
         il, cs = compares(fi)
         got = set()
+        altered = []
+        import re as _re10
+
+        def _lengths(t):
+            # the stored lengths, possibly through a layout-only view
+            return _re10.sub(r'\.(flatten|ravel|copy|squeeze)\(\)|\.reshape\(\(?6,?\)?\)', '', t) in ('self.lengths', 'np.copy(self.lengths)', 'np.array(self.lengths)')
         for n, e in cs:
-            cp = cmp_parts(e, left='self.lengths')
+            cp = cmp_parts(e, left=_lengths)
             if cp is not None:
                 got.add((cp[1].rstrip('='), cp[2]))
-        rep.ob(rule, fi, 'lengths < leg_ext_min or lengths > leg_ext_max', got == {('<', 'self.leg_ext_min'), ('>', 'self.leg_ext_max')},
+            elif 'self.lengths' in norm_text(e):
+                altered.append(norm_text(e)[:80])
+        rep.ob(rule, fi, 'lengths < leg_ext_min or lengths > leg_ext_max', got == {('<', 'self.leg_ext_min'), ('>', 'self.leg_ext_max')} and not altered,
+               ('the stroke limits are tested on a function of the leg lengths, not on the lengths themselves: %s - lengths just outside a limit (within the '
+                'rounding / offset applied) are reported valid and no corrective action runs' % '; '.join(altered[:2])) if altered else
                'leg-length constraint compares %s' % sorted(got))
     if only is None or '_interiorAnglesConstraint' in only:
         fi = method('_interiorAnglesConstraint')
